@@ -79,6 +79,15 @@ def replay_cache(call):
                     r2 = c(*a2, **k2)
                     if len(calls) - n0 != 1 or r2 != ('f', a2, tuple(sorted(k2.items()))):
                         bad.append('%s then (*%r, **%r): %d evaluations, result %r' % (txt, a2, k2, len(calls) - n0, r2))
+    # the stored result may be anything - None, a falsy value, NaN: a hit is decided by the key, not by the value
+    for name, val in (('None', None), ('0', 0), ('empty list', []), ('False', False), ('nan', float('nan'))):
+        f, calls = counting(False, result=lambda a, k, val=val: val)
+        c = cache_func(f)
+        tried += 1
+        r1 = c(1, p=2)
+        r2 = c(1, p=2)
+        if len(calls) != 1 or r2 is not r1:
+            bad.append('cache(f) with f returning %s: two equal calls evaluated f %d time(s); results %r / %r' % (name, len(calls), r1, r2))
     return dict(fails=bool(bad), detail='; '.join(bad[:3]) or '%d rebuilt cache cases agree with the oracle' % tried)
 
 
